@@ -69,6 +69,8 @@ type Exec struct {
 	Refix    []string // marshal -> ReadSession -> marshal differences seen at restart points (clause 1)
 	RefixAt  []int
 	ReadErrs []string
+	CtxDiff  []string // differences between Session.CurrentContext() of the live and of the re-read session
+	CtxAt    []int
 }
 
 func resetSources(seed int64, call int) {
@@ -249,6 +251,10 @@ func (sc *Scenario) reread(ex *Exec, eng flows.Engine, s flows.Session, at int) 
 		ex.Refix = append(ex.Refix, jsonDiff(string(m1), string(m2)))
 		ex.RefixAt = append(ex.RefixAt, at)
 	}
+	if d := contextDiff(s, s2); d != "" && checkContext {
+		ex.CtxDiff = append(ex.CtxDiff, d)
+		ex.CtxAt = append(ex.CtxAt, at)
+	}
 	return s2, sa2, true
 }
 
@@ -416,4 +422,68 @@ func firstDiff(x, y any, path string) (string, any, any) {
 		}
 		return "", nil, nil
 	}
+}
+
+// checkContext: compare Session.CurrentContext() of the live and the re-read session at every wait.  On goflow before the
+// fix fixes/C02_path_location_empty_path.diff the re-read session panics for a run with an empty path.
+const checkContext = false
+
+// contextDiff compares the expression context (Session.CurrentContext()) of the kept-alive session with that of the
+// session read back from its JSON, leaving out the two values the statement exempts (webhook, legacy_extra) and the
+// two that are re-derived at the start of the next call, before anything is evaluated: `resume` (nil after a read, set
+// by the next Resume) and, for sessions started by a flow_action trigger, `parent` of a top-level run (the trigger's
+// run summary, loaded by prepareForSprint).
+func contextDiff(live, reread flows.Session) string {
+	render := func(s flows.Session) (out string) {
+		defer func() {
+			if p := recover(); p != nil {
+				out = fmt.Sprintf("panic: %v", p)
+			}
+		}()
+		ctx := s.CurrentContext()
+		if ctx == nil {
+			return "null"
+		}
+		b, err := json.Marshal(ctx)
+		if err != nil {
+			return "marshal error: " + err.Error()
+		}
+		var m map[string]any
+		if json.Unmarshal(b, &m) != nil {
+			return string(b)
+		}
+		delete(m, "webhook")
+		delete(m, "legacy_extra")
+		delete(m, "resume")
+		if _, fromFlowAction := s.Trigger().(flows.TriggerWithRun); fromFlowAction {
+			// @parent of a top-level run is the trigger's run summary, which prepareForSprint loads at the next call
+			if cur := currentRunOf(s); cur == nil || cur.ParentInSession() == nil {
+				delete(m, "parent")
+			}
+		}
+		b, _ = json.Marshal(m)
+		return string(b)
+	}
+	a, b := render(live), render(reread)
+	if a == b {
+		return ""
+	}
+	if strings.HasPrefix(b, "panic:") && !strings.HasPrefix(a, "panic:") {
+		return "at reread-panics: " + clip(b, 200) + " | kept alive: " + clip(a, 200)
+	}
+	if d := jsonDiff(a, b); d != "texts differ (not JSON)" {
+		return d
+	}
+	return "raw: " + clip(a, 300) + " | " + clip(b, 300)
+}
+
+// the run Session.CurrentContext() describes: the one modified last
+func currentRunOf(s flows.Session) flows.Run {
+	var last flows.Run
+	for _, r := range s.Runs() {
+		if last == nil || r.ModifiedOn().After(last.ModifiedOn()) {
+			last = r
+		}
+	}
+	return last
 }
